@@ -71,6 +71,8 @@ var serverSeeds = []string{
 	"OPTIONS * HTTP/1.1\r\nHost: h\r\n\r\n",
 	"HEAD /h HTTP/1.1\r\nHost: h\r\n\r\n",
 	"HEAD /h HTTP/1.1\r\nHost: h\r\nTransfer-Encoding: chunked\r\n\r\n3\r\nabc\r\n0\r\n\r\n",
+	// a repeated last-chunk line where the trailer section would start (tolerated by hertz, read by the trailer parser)
+	"POST /p HTTP/1.1\r\nHost: h\r\nTransfer-Encoding: chunked\r\n\r\n1\r\na\r\n0\r\n0\r\n\r\n",
 	"GET /f HTTP/1.1\r\nHost: h\r\nX-F: a\r\n b\r\n\r\n",
 	"POST /m HTTP/1.1\r\nHost: h\r\nContent-Type: multipart/form-data; boundary=xx\r\nContent-Length: 62\r\n\r\n--xx\r\nContent-Disposition: form-data; name=\"a\"\r\n\r\nv\r\n--xx--\r\n",
 	"POST /u HTTP/1.1\r\nHost: h\r\nContent-Type: application/x-www-form-urlencoded\r\nContent-Length: 7\r\n\r\na=1&b=2",
@@ -86,6 +88,7 @@ var clientSeeds = []string{
 	"HTTP/1.1 200 OK\r\nContent-Length: 3\r\n\r\nabc",
 	"HTTP/1.1 200 OK\r\nTransfer-Encoding: chunked\r\n\r\n3\r\nabc\r\n0\r\n\r\n",
 	"HTTP/1.1 200 OK\r\nTrailer: X-T\r\nTransfer-Encoding: chunked\r\n\r\n1\r\na\r\n0\r\nX-T: v\r\n\r\n",
+	"HTTP/1.1 200 OK\r\nTransfer-Encoding: chunked\r\n\r\n1\r\na\r\n0\r\n0\r\n\r\n",
 	"HTTP/1.1 200 OK\r\nConnection: close\r\n\r\nbody",
 	"HTTP/1.0 200 OK\r\n\r\nbody",
 	"HTTP/1.1 100 Continue\r\n\r\nHTTP/1.1 200 OK\r\nContent-Length: 1\r\n\r\nx",
